@@ -568,6 +568,10 @@ def _build():
 
 
 FINDINGS = _build() + [
+    dict(id="C08-google-multiline-description-header-reflows", property="C08",
+         pattern=dict(check="fixpoint", fmt="docstring", style="google", multiline_doc=True, field="header", round=2),
+         what="[R-google-continuation-unindented] round 1 moves the unindented continuation line into the header; round 2 re-flows that header once more (whitespace / trailing newline)",
+         site="cdd/shared/docstring_utils.py:emit_param_str (google branch)", example="{'alpha': {'typ': 'int', 'doc': 'the value\\nsecond line of it', 'default': 5}} through docstring-google twice"),
     dict(id="C08-double-quote-in-default-later-round-raises", property="C08",
          pattern=dict(check="fixpoint", quote_in_default=True, field="parse", observed="raises SyntaxError", fmt="docstring"),
          what="[R-default-quote] Google/NumPy docstring with a doc-derived type: the second round re-reads the unescaped \"say \"hi\"\" prose default and raises SyntaxError",
